@@ -80,6 +80,34 @@ def extract(iterator_name, t0, h, via):
     return dict(S=S, A=A, b=b, ct=ct, intact=intact, tnew=fr(frac((tnew - t0) / h)))
 
 
+def alias_intact(iterator_name):
+    """the iterator functions called the way DESolver calls them, with right-hand sides that hand back arrays the caller still owns:
+    x' = x implemented as `return x` (the state vector itself) and x' = b implemented as `return b` (a stored array).  Neither the
+    state vector nor the stored array may be modified, and the step must be the documented one."""
+    from kawin.solver import Iterators
+    it = Iterators.RK4Iterator if iterator_name == "rk4" else Iterators.ExplicitEulerIterator
+    h = 0.125
+    upd = lambda X_old, dXdt, dt: X_old + dXdt * dt
+    out = {}
+    # (1) f returns its argument
+    x = np.array([1.0, 2.0])
+    keep = x.copy()
+    f1 = lambda t, X, first=False: (X, h) if first else X
+    xnew, _ = it(f1, 0.0, x, upd)
+    exact = keep * (1 + h + h ** 2 / 2 + h ** 3 / 6 + h ** 4 / 24) if iterator_name == "rk4" else keep * (1 + h)
+    out["state"] = bool(np.array_equal(x, keep))
+    out["step_alias"] = bool(np.allclose(xnew, exact, rtol=1e-13, atol=0))
+    # (2) f returns a stored array
+    bvec = np.array([1.0, 1.0])
+    bkeep = bvec.copy()
+    x2 = np.zeros(2)
+    f2 = lambda t, X, first=False: (bvec, h) if first else bvec
+    xnew2, _ = it(f2, 0.0, x2, upd)
+    out["stored"] = bool(np.array_equal(bvec, bkeep))
+    out["step_stored"] = bool(np.allclose(xnew2, h * bkeep, rtol=1e-13, atol=0))
+    return out
+
+
 class Cubic(GenericModel):
     """x' = t^3, scalar-in-a-vector state; one step"""
     def __init__(self, t0, h):
@@ -101,10 +129,14 @@ class Cubic(GenericModel):
         return x, True
 
 
-def quad(iterator_name, t0, h):
+def quad(iterator_name, t0, h, span=None):
+    """x' = t^3 from t0 over `span` with the model proposing steps of h (span = h: one step; span = 1.5 h: a full step and a
+    last step the solver has to shorten to land on the end time)"""
     st = SolverType.RK4 if iterator_name == "rk4" else SolverType.EXPLICITEULER
     m = Cubic(t0, h)
-    m.solve(h, solverType=st, minDtFrac=2.0 ** -20, maxDtFrac=1)
+    if span is not None and span != h:
+        m.postProcess = lambda time, x, m=m: (setattr(m, "final", float(x[0][0])), setattr(m, "t", time), setattr(m, "x", x[0]), (x, False))[-1]
+    m.solve(h if span is None else span, solverType=st, minDtFrac=2.0 ** -20, maxDtFrac=1)
     f = Fraction(m.final)
     if abs(f.numerator) >= 2 ** 31 or f.denominator >= 2 ** 31:
         return BADR
